@@ -3,6 +3,7 @@ import MW.Chain.World
 import MW.Inv.WorldInv
 import MW.Inv.Demo
 import MW.Inv.WorldStake
+import MW.Staking.Interface
 /-!
 # C03 — LST supply integrity and exact delivery of minted tokens
 -/
@@ -193,5 +194,15 @@ end Demo
 /-- regression witness for the defect fixed in /repo (ce795a0): at totals 2000/1000 a stake of 1001
 mints 500 and the native-chain delivery now carries 500, not 1001 -/
 example : computeMint 2000 1000 1001 = .ok 500 := rfl
+
+/-- the statements of this file quantify over every message the staking contract accepts: the `ExecuteMsg` the source
+declares (table regenerated from /repo's `msg.rs` on every run) has exactly the variants, fields and types of the
+model's `ExecMsg`, and the contract exports exactly the modelled entry points.  A message or entry point added to the
+source — which no generated history would exercise — breaks this theorem -/
+theorem messages_are_the_modelled_ones :
+    MW.Generated.Interface.staking_execute = MW.Interface.model_staking_execute
+    ∧ (∀ m : MW.Staking.ExecMsg, MW.Interface.execTag m ∈ MW.Interface.names MW.Generated.Interface.staking_execute)
+    ∧ MW.Generated.Interface.staking_entry_points = ["execute", "instantiate", "migrate", "query", "reply", "sudo"] :=
+  ⟨MW.Interface.staking_execute_eq, MW.Interface.staking_execute_covered.2, MW.Interface.staking_entry_points_eq⟩
 
 end MW.Props.C03
